@@ -113,7 +113,8 @@ PROPS["C07"] = {
     "assumptions": ["universe of target types as in C03; inputs shorter than 2^31 bytes"],
     "claim": {
         "text": "Theorems (Properties/C07.v): for every supported target type and EVERY byte string the model's decode/Unmarshal returns a value or an error - never Panic (all Go slice bounds are checked in the model) and within fuel linear in the input - "
-                "with 0 <= consumed <= len. Unknown-field skipping is decided by correspondence (decoded value with and without the inserted fields; model vs implementation) and Scan/Parse by an independent field-level oracle on every byte string; allocation is not modelled.",
+                "with 0 <= consumed <= len. Unknown fields (Proto/UnknownProofs.v): inserting ANY well-formed field with an undeclared number (any of the four wire types, padded varints, numbers 0 and above 2^16 included) at ANY field boundary of a message - top level (unknown_insert_decode, unknown_insert: also for byte arrays, RawMessage fields and maps with pointer values, and when other fields fail to decode: same error class, same partial value) or inside embedded messages at any depth with the enclosing length prefixes re-encoded (unknown_nested, unknown_nested_many) - leaves the decoded value and the error class unchanged; "
+                "the two provisos are necessary (unknown_insert_any_target_refuted: an empty input resets a populated target while unknown-only input merges into it; unknown_nested_any_refuted: an empty map-entry payload is the F34 quirk). Scan accepts exactly the sequences of complete fields and never panics (scan_total, scan_boundary). Allocation is not modelled.",
         "note": "Trusted as C16. Recursive message types (unbounded Go stack) are outside the finite-descriptor universe; memory allocation is not modelled.",
     },
 }
@@ -223,6 +224,49 @@ PROPS["C13"]["claim"] = {
     "text": "Theorems (Properties/C13.v): the package's encoder model equals a transcription of the Apache Thrift binary and compact protocol specifications for every supported type and value once three recorded deviations are switched on in the transcription "
             "(binary type codes, 3-byte binary stop field, big-endian compact doubles), and is refuted without them by concrete witnesses. Any other byte-level deviation breaks the theorem or the correspondence. Decode side (t_alt_accept): EVERY alternative conformant compact encoding - any combination of long and short forms of field and list/set headers - of every value of every supported type is accepted with the result obtained from Marshal's own bytes; the harness decodes such encodings with the real readers.",
     "note": "Trusted as C04, plus the specification transcription (Thrift/Spec.v spec_enc and harness specEnc), written from memory of the specification documents: no Apache Thrift implementation is available offline; this is the weakest oracle of the development. Reader acceptance of alternative conformant encodings (long forms) is covered by the decoder theorems of C04/C08 only for the package's own output.",
+}
+
+# ---- C01 / C02: scalar core proved (build-C0102), the reflection-driven encoder/decoder decided differentially ----
+_C0102_RULE = (" c01s: strings with each of 44 special bytes at every offset 0..24 of strings whose length crosses the 8-byte word boundaries, pairs of special bytes, 56 UTF-8 sequences "
+               "(valid of every width, lone continuation/lead bytes, truncated, overlong, CESU surrogates, > U+10FFFF) at offsets 0..17, U+2028/2029, random; JSON string documents built from pieces "
+               "(all escapes, \\uXXXX in mixed case, surrogate pairs / lone / reversed, raw valid and ill-formed UTF-8, bad escapes, truncated \\u, control bytes, missing quote, trailing bytes, null, white space) "
+               "with the piece at every offset 0..18 after the opening quote, mutations and truncations; integers of all 11 Go integer types at every 2^k +-2, 10^k +-1, width boundary +-1, > 64 bit, malformed literals. "
+               "impl = Marshal/Append/AppendEscape/Escape/Unmarshal/AppendUnescape; oracle = encoding/json; model = extracted translated encodeString / parseStringUnquote and hand models (corr); "
+               "spec = extracted transcription of encoding/json (ocorr); s.utf8dec/s.utf8enc/s.utf16/s.sanitize tie the hand models of unicode/utf8 and unicode/utf16 to the real standard library.")
+_C0102_TB = [
+    "Json/StrExt.v: hand models of unicode/utf8 DecodeRune/EncodeRune and unicode/utf16 (from Table 3-7 of the Unicode standard), of the range-over-string loop of appendCoerceInvalidUTF8 and of appendRune; tied to the real stdlib by ~12k s.utf8*/s.utf16/s.sanitize cases per run",
+    "Json/NumModel.v: formatInteger is transcribed by hand (it aliases a [22]byte as [11]uint16 through unsafe.Pointer; little-endian stores assumed, the BE table is not modelled); decodeInt*/decodeUint* glue by hand",
+    "Json/StrModel.v: hand-written glue of json.go Parse/Unmarshal, decodeString, AppendEscape, AppendUnescape around the translated functions",
+    "extern map of JsonStringGen.v: `r == nil` is modelled as `len r = 0`, make([]byte,0,n) as []; parseUnicode is called with receiver flags 0 (it ignores its receiver)",
+    "Json/StrSpec.v std_escape / uq_lit / sanitize and Json/NumSpec.v are transcriptions of encoding/json go1.23.5 checked against it on every run (ocorr), not derived from its source mechanically",
+]
+for _p in ("C01", "C02"):
+    PROPS[_p]["driver"] = "_c01"
+    PROPS[_p]["builds"] = [("harness", "verif"), ("harness_c01s", "verif,c01s", "c01s")]
+    PROPS[_p]["rule"] += _C0102_RULE
+    PROPS[_p]["trusted_base"] = PROPS[_p]["trusted_base"] + _C0102_TB
+    PROPS[_p]["assumptions"] = PROPS[_p]["assumptions"] + ["strings and documents shorter than 2^62 bytes", "little-endian platform (formatInteger)", "flags given to parseStringUnquote are sound for the input (proved for what Parse computes)"]
+PROPS["C01"]["models"] = ["Generated/JsonStringGen.v json_encoder_encodeString (machine translation of encoder.encodeString) + json_intLELookup", "Generated/JsonParseGen.v json_escapeIndex/json_escapeByteRepr",
+                          "Json/StrExt.v", "Json/StrModel.v", "Json/NumModel.v", "Json/StrSpec.v, Json/NumSpec.v (transcriptions of encoding/json)"]
+PROPS["C02"]["models"] = ["Generated/JsonStringGen.v json_decoder_parseStringUnquote (machine translation)", "Generated/JsonParseGen.v parseString/parseUnicode/parseUintHex/parseInt/parseUint/parseNumber/internalParseFlags/skipSpaces/hasNullPrefix",
+                          "Json/StrExt.v", "Json/StrModel.v", "Json/NumModel.v", "Json/StrSpec.v, Json/NumSpec.v (transcriptions of encoding/json)"]
+PROPS["C01"]["claim"] = {
+    "text": "PARTIAL at proof level: the reflection-driven encoder is decided by differential execution against encoding/json only. Proved for EVERY input (Properties/C01.v): the machine translation of encoder.encodeString (regenerated from json/encode.go on every run) appends, "
+            "for every byte string incl. ill-formed UTF-8 shorter than 2^62, every flag word and every buffer, exactly the standard escaping selected by the EscapeHTML bit - quote and backslash escaped, the short forms for backspace, form feed, new line, carriage return and tab, other control bytes as u00XX escapes, "
+            "< > & as u00XX escapes under EscapeHTML only, U+2028/2029 always escaped, each byte outside well-formed UTF-8 as the escape of U+FFFD, everything else (0x7f included) verbatim (c01_encode_string_std; c01_escape_string_std for AppendEscape/Escape); "
+            "escapeIndex returns -1 exactly when no byte needs an escape (c01_escape_index) and in that case the early return quote-s-quote IS the standard escaping (c01_escape_fast_path); the standard escaping of any byte string is a JSON text of the RFC 8259 grammar (c01_escape_is_json), "
+            "the standard unquoting reads it back as the string with ill-formed bytes replaced by U+FFFD (c01_unquote_escape, c01_sanitize_fixed), and so does the model of json.Unmarshal on the model of json.Marshal's output (c01_string_round_trip). "
+            "The hand model of formatInteger/appendInt/appendUint (json/int.go, the package's own table-driven code) writes the canonical decimal text of every int64 and uint64 (c01_append_int, c01_append_uint, c01_decimal_canonical) and every value of every Go integer type survives formatting + typed decoding (c01_int_round_trip). "
+            "Everything else of the statement (type shapes, tags, embedding, maps, Marshalers, floats, indent) is decided by correspondence with encoding/json on every run on a reflect-generated type universe.",
+    "note": "Partial. Trusted: Coq kernel; translator; hand models of unicode/utf8, unicode/utf16 (StrExt.v) and of formatInteger (NumModel.v) tied to the real code/stdlib by ~63k c01s cases per run (impl = oracle = model = spec); std_escape is a transcription of encoding/json go1.23.5 checked against it on every run; extraction+driver; harness. Three recorded findings (F28, F30, F12b) are subtracted by type-shape class.",
+}
+PROPS["C02"]["claim"] = {
+    "text": "PARTIAL at proof level: the reflection-driven decoder is decided by differential execution against encoding/json only. Proved for EVERY input (Properties/C02.v): the machine translation of decoder.parseStringUnquote (over the translated parseString/parseUnicode/parseUintHex, regenerated from json/parse.go on every run) fails exactly when the input "
+            "(shorter than 2^62, any sound flags word) does not start with an RFC 8259 string literal and otherwise returns exactly the standard unquoting - simple escapes, uXXXX escapes as UTF-8, high+low surrogate pair as one rune, every other surrogate as U+FFFD with the following escape read on its own, raw ill-formed UTF-8 bytes as U+FFFD, "
+            "also on the zero-copy Unescaped fast path - and the rest of the input (c02_parse_string_unquote; c02_unquote_grammar); json.Unmarshal into a string (glue model over the translated internalParseFlags/skipSpaces/hasNullPrefix) equals the standard behaviour on every input incl. null, white space and trailing bytes (c02_unmarshal_string); "
+            "parseUint/parseInt are exact with overflow exactly outside uint64/int64 (c02_parse_uint_exact, c02_parse_int_exact), the typed decoders decodeInt8..64/decodeUint8..64 return the value iff it is in the range of the Go type and reject a minus sign for unsigned types (c02_decode_int_exact), parseNumber classifies every valid literal (c02_parse_number_kind); "
+            "decoding what the encoder wrote returns the (sanitized) original (c02_string_round_trip, c02_int_round_trip). Everything else (type dispatch, structs, maps, slices, interfaces, histories of documents into one variable, the string option) is decided by correspondence with encoding/json on every run.",
+    "note": "Partial. Trusted as C01, plus: uq_lit / spec_unmarshal_string / spec_unmarshal_int are transcriptions of encoding/json's unquoteBytes and scanner behaviour checked against it on every run. Five recorded findings (F28, F31, F14, F30, F12b) are subtracted by type-shape class.",
 }
 
 # per-property fragments (lib/props_cXX.py defining ENTRY, and optionally CLAIM): one file per property so that
